@@ -412,6 +412,30 @@ def directed(rng):
                                              "vehicle_id": "bus_0", "event_type": "departure",
                                              "update": {"estimated_time_of_arrival": scen.iso(start + datetime.timedelta(days=1))}}]}}
         out.append((js, "distributed", {}))
+    # D14: flex_window greedy / needy with a fixed-load series that is NOT on the step grid (the weekly-average forecast differs from
+    # the load actually present), demand high enough that head room binds (round-4 seed C04-s10: the allocation paths that use the
+    # actual load must keep using it)
+    rng14 = random.Random("d14")       # private stream: the scenarios drawn after the directed families stay what they were
+    for k14 in range(2):
+        start = datetime.datetime.fromisoformat("2023-01-02T00:00:00" + scen.TZ)
+        n14 = 8
+        lim = rng14.choice([10, 12])
+        vals = [rng14.choice([8, 6]), 0, 0, rng14.choice([0, 5]), 0, 0, 0, 0]
+        js = {"scenario": {"start_time": scen.iso(start), "interval": 15, "n_intervals": n14},
+              "components": {
+                  "vehicle_types": {"car": {"name": "car", "capacity": 100, "charging_curve": [[0, 22], [1, 22]]}},
+                  "vehicles": {"v%d" % i: {"vehicle_type": "car", "soc": 0.5, "desired_soc": 0.6, "connected_charging_station": "CS%d" % i,
+                                           "estimated_time_of_departure": scen.iso(start + datetime.timedelta(hours=2))} for i in range(k14 + 1)},
+                  "grid_connectors": {"GC1": {"max_power": lim, "cost": {"type": "fixed", "value": 0.3}}},
+                  "charging_stations": {"CS%d" % i: {"max_power": 22, "parent": "GC1"} for i in range(k14 + 1)},
+                  "batteries": {}, "photovoltaics": {}},
+              "events": {"fixed_load": {"building": {"start_time": scen.iso(start + datetime.timedelta(minutes=5)), "step_duration_s": 900,
+                                                     "grid_connector_id": "GC1", "values": vals}},
+                         "local_generation": {},
+                         "grid_operator_signals": [{"signal_time": scen.iso(start), "start_time": scen.iso(start), "grid_connector_id": "GC1", "window": True}],
+                         "vehicle_events": []}}
+        for ls in ("greedy", "needy"):
+            out.append((js, "flex_window", {"LOAD_STRAT": ls}))
     return out
 
 
